@@ -6,29 +6,21 @@ import os
 import random
 import shutil
 
-from . import core, si, sysgen, trajgen, engine_build, child, fingerprint, dictgen
+from . import core, si, sysgen, trajgen, engine_build, child, fingerprint, dictgen, translate_schemas
 from .core import g_float, g_list, g_bool, g_codepoints
 
 IMPORTS = "AcceptC04 AcceptC12"
 
-# the key aliases each reader accepts (first = the key the writers use)
-ALIASES = {
-    "species": [["label", "l"], ["D", "diff_coef", "diffusion_coefficient", "diff coef", "diffusion coefficient"],
-                ["density", "concentration", "dens", "conc", "C"], ["chstt", "chemostat"], ["units", "units_system", "units system", "u"]],
-    "reaction": [["stoichiometry", "eq", "sto", "equation"], ["label", "l"], ["k+", "kf"], ["k-", "kr"], ["units", "units_system", "units system", "u"]],
-    "network": [["species"], ["reactions"], ["environments", "env"], ["units", "units_system", "units system", "u"]],
-    "grid": [["type"], ["w", "width"], ["h", "height"], ["d", "depth"], ["cell_env", "cell_environments", "cell environments", "environments", "env"],
-             ["cell_volume", "cell_vol"], ["boundary_conditions"], ["units", "units_system", "units system", "u"]],
-    "node": [["volume", "vol"], ["environment", "env"], ["units", "units_system", "units system", "u"]],
-    "edge": [["nodes"], ["surface"], ["distance"], ["units", "units_system", "units system", "u"]],
-    "graph": [["type"], ["nodes"], ["edges"], ["units", "units_system", "units system", "u"]],
-    "system": [["network", "rdnetwork"], ["space", "rdspace"], ["state"], ["chemostats"], ["units", "units_system", "units system", "u"]],
-    "script": [["system"], ["t_sample"], ["time_step", "time step", "dt"], ["t_max", "tmax"], ["sampling_policy", "sampling policy"],
-               ["sampling_interval", "sampling interval"], ["rng_seed", "rng seed", "seed"], ["init_state_processing", "init state processing"],
-               ["units", "units_system", "units system", "u"]],
-}
-CHILDREN = {"network": {"species": "species*", "reactions": "reaction*"}, "graph": {"nodes": "node*", "edges": "edge*"},
-            "system": {"network": "network", "space": "space"}, "script": {"system": "system"}}
+# the key aliases each reader accepts (first = the key the writers use): read from /repo's current source by the translator
+try:
+    ALIASES = translate_schemas.aliases()
+except translate_schemas.TranslateError:
+    ALIASES = {}            # ./check reports the failed translation as a broken obligation
+_U = {"units": "unitssystem"}
+CHILDREN = {"species": dict(_U), "reaction": dict(_U), "node": dict(_U), "edge": dict(_U), "grid": dict(_U),
+            "network": dict(_U, species="species*", reactions="reaction*"), "graph": dict(_U, nodes="node*", edges="edge*"),
+            "system": dict(_U, network="network", space="space", state="unitarray"),
+            "script": dict(_U, system="system", t_sample="unitarray")}
 
 
 def alias_variants(kind, d, rng, limit=6):
